@@ -7,9 +7,11 @@ export VERIF_REPO=$R
 cd "$(dirname "$0")/.."
 ./check --setup > setup.log 2>&1
 : > seeded_results.txt
+# an argument may name the property whose check is to be run: C04-14:C05
 if [ $# -gt 0 ]; then LIST=$(for a in "$@"; do echo seeded/$a; done); else LIST=$(ls -d seeded/C*-*); fi
 for d in $LIST; do
   id=$(basename $d); p=${id%-*}
+  case $id in *:*) p=${id#*:}; id=${id%:*}; d=seeded/$id;; esac
   git -C $R apply $PWD/$d/patch.diff 2>/dev/null || { echo "$id: patch does not apply" >> seeded_results.txt; continue; }
   out=$(./check $p 2>&1 | grep -E "VIOLATION|quick:" | tr '\n' ' ')
   git -C $R checkout -- .
